@@ -24,7 +24,7 @@ RULE = (
     "two list-valued queries observed in both relative orders within a state "
     "somewhere in the run."
 )
-BUDGET = {"quick": 700, "thorough": 3000}
+BUDGET = {"quick": 700, "thorough": 8000}
 ASSUMPTIONS = [
     "spec of each query is the one written in jsverif/props/c05.py from the docstrings and the property text",
     "is_ongoing is only asserted for operations whose end is after the current time (its docstring and its code disagree for completed operations; the property does not list it)",
